@@ -11,6 +11,7 @@ import (
 	"time"
 
 	res "github.com/jirenius/go-res"
+	nats "github.com/nats-io/nats.go"
 	"pgregory.net/rapid"
 
 	"verifharness/internal/evid"
@@ -47,6 +48,9 @@ type Cfg struct {
 	// Restart serves the service, shuts it down and serves it again on a new connection;
 	// the guarantees are checked on the second connection.
 	Restart bool `json:"restart,omitempty"`
+	// Prior: another ownership (zz.>) was configured first; the configuration under test -
+	// explicit lists, or nil/nil to go back to the default - is set by a later call.
+	Prior bool `json:"prior,omitempty"`
 }
 
 // HSpec is one handler of a split registration.
@@ -110,6 +114,12 @@ func build(c Cfg) *res.Service {
 			continue
 		}
 		s.Handle(h.Pattern, kindOpts(h.Kinds)...)
+	}
+	if c.Prior {
+		s.SetOwnedResources([]string{"zz.>"}, []string{"zz.>", "yy"})
+		if !c.Explicit {
+			s.SetOwnedResources(nil, nil)
+		}
 	}
 	if c.Explicit {
 		if len(c.Resources)%2 == 1 {
@@ -372,7 +382,7 @@ func genPattern(name string) *rapid.Generator[string] {
 			k := rapid.IntRange(0, 9).Draw(t, "tk")
 			switch {
 			case k < 5:
-				toks = append(toks, rapid.SampledFrom([]string{"a", "b", "ab"}).Draw(t, "lit")) // "a" is a string prefix of "ab"
+				toks = append(toks, rapid.SampledFrom([]string{"a", "b", "ab", "a", "b", "ab", "q\"", "\\"}).Draw(t, "lit")) // "a" is a string prefix of "ab"
 			case k < 8:
 				toks = append(toks, "*")
 			default:
@@ -389,7 +399,8 @@ func genPattern(name string) *rapid.Generator[string] {
 
 func genCfg() *rapid.Generator[Cfg] {
 	return rapid.Custom(func(t *rapid.T) Cfg {
-		c := Cfg{Name: rapid.SampledFrom([]string{"", "svc", "svc", "a.b"}).Draw(t, "name")}
+		c := Cfg{Name: rapid.SampledFrom([]string{"", "svc", "svc", "a.b", "s\"q", "b\\c"}).Draw(t, "name")}
+		c.Prior = rapid.IntRange(0, 3).Draw(t, "prior") == 0
 		c.Explicit = rapid.IntRange(0, 2).Draw(t, "explicit") > 0
 		if c.Explicit {
 			c.Resources = rapid.SliceOfN(genPattern(c.Name), 0, 4).Draw(t, "resources")
@@ -536,6 +547,10 @@ func TestRealNATS(t *testing.T) {
 		resetOK := true
 		for _, when := range []string{"start", "reconnect"} {
 			if when == "reconnect" {
+				// (the disconnect handler first, as on a real outage)
+				if dcb := nc.Opts.DisconnectedCB; dcb != nil {
+					dcb(nc)
+				}
 				cb := nc.Opts.ReconnectedCB
 				if cb == nil {
 					evid.Violation(t, prop, "realnats", "Serve on a *nats.Conn did not install a reconnect handler; config "+c.String(), c)
@@ -666,11 +681,41 @@ func TestRealNATSListenAndServe(t *testing.T) {
 	defer client.Close()
 	c := Cfg{Name: "svc", Kinds: []string{"get", "access"}, Queue: "<default>"}
 	s := build(c)
+	// the service reaches the server through a proxy, so that its connection can be cut
+	px, err := srv.Proxy()
+	if err != nil {
+		t.Fatalf("VERIF-INCONCLUSIVE: %v", err)
+	}
+	defer px.Close()
+	resets, err := client.SubscribeSync("system.reset")
+	if err != nil {
+		t.Fatalf("VERIF-INCONCLUSIVE: %v", err)
+	}
+	_ = client.Flush()
+	wantRes, wantAcc := expectedOwnership(c)
+	checkReset := func(when string, cycle int) bool {
+		m, err := resets.NextMsg(10 * time.Second)
+		if err != nil {
+			evid.Violation(t, prop, "listenandserve", fmt.Sprintf("cycle %d: no system.reset seen %s", cycle, when), c)
+			return false
+		}
+		var reset struct {
+			Resources []string `json:"resources"`
+			Access    []string `json:"access"`
+		}
+		if err := json.Unmarshal(m.Data, &reset); err != nil || set(reset.Resources) != set(wantRes) || set(reset.Access) != set(wantAcc) {
+			evid.Violation(t, prop, "listenandserve", fmt.Sprintf("cycle %d: the system.reset sent %s is %s, the owned patterns are %v / %v", cycle, when, m.Data, wantRes, wantAcc), c)
+			return false
+		}
+		return true
+	}
 	for cycle := 0; cycle < 2; cycle++ {
 		started := make(chan struct{})
 		s.SetOnServe(func(*res.Service) { close(started) })
+		disc := make(chan struct{}, 4)
+		s.SetOnDisconnect(func(*res.Service) { disc <- struct{}{} })
 		exited := make(chan error, 1)
-		go func() { exited <- s.ListenAndServe(srv.URL) }()
+		go func() { exited <- s.ListenAndServe(px.URL, nats.ReconnectWait(10*time.Millisecond)) }()
 		select {
 		case <-started:
 		case err := <-exited:
@@ -689,6 +734,20 @@ func TestRealNATSListenAndServe(t *testing.T) {
 		}
 		if n == 0 {
 			evid.Violation(t, prop, "listenandserve", fmt.Sprintf("cycle %d: a get request on an owned resource got no response after ListenAndServe reported serving", cycle), c)
+		}
+		// the reset sent on start, then a real outage: the reset sent on reconnect
+		if checkReset("on start", cycle) {
+			px.Cut()
+			select {
+			case <-disc:
+				px.Restore()
+				if checkReset("on reconnect after an outage", cycle) {
+					ev.Case(true, evid.Hash("listenandserve-reconnect", cycle), "real-reconnect")
+				}
+			case <-time.After(10 * time.Second):
+				px.Restore()
+				t.Logf("VERIF-INCONCLUSIVE: the service did not notice the outage")
+			}
 		}
 		_ = s.Shutdown()
 		select {
